@@ -191,13 +191,7 @@ def _ret_kind(f, st):
 
 def _closure_variant_table(prog, f, o):
     """for a closure operand taking a &DiffOp: (set of variants answered true, complete?)"""
-    cl = None
-    for r in provenance(f, o, through=None, into_aggs=False):
-        if r[0] == "agg" and r[1].startswith("closure "):
-            cl = r[1][len("closure "):]
-    if cl is None:
-        return None
-    g = prog.fn("stylua", cl) or prog.fn("stylua", cl.split("stylua::", 1)[-1])
+    g = _closure_fn(prog, f, o)
     if g is None:
         return None
     try:
@@ -249,9 +243,8 @@ def rule_none(ctx, prop):
             continue
         nprod = 0
         for f in targets:
-            init = {"arg:1.output_format": "Summary"} if f.path == "create_diff" else None
             try:
-                res = Enumerator(f, init_disc=init, summaries=False, max_paths=20000).run()
+                res = Enumerator(f, summaries=False, max_paths=20000).run()
             except TooManyPaths:
                 rep.anchor(False, f"{f.key}: too many paths", cfg)
                 continue
@@ -265,27 +258,36 @@ def rule_none(ctx, prop):
             if not rep.anchor(bool(nones) and bool(somes), f"{f.key}: has paths returning None and paths returning Some", cfg):
                 continue
             nprod += 1
-            # the deciding call: constant on every None path, the opposite on every Some path
-            cands = []
-            for key in nones[0]:
-                vals_n = {d.get(key) for d in nones}
-                vals_s = {d.get(key) for d in somes}
-                if len(vals_n) == 1 and None not in vals_n and vals_s == {not list(vals_n)[0]}:
-                    cands.append((key, list(vals_n)[0]))
-            verdicts = []
-            for key, when_none in cands:
-                bi = int(key.split(":")[1])
-                t = f.blocks[bi]["term"]
-                c = callee(t)
-                verdicts.append(_judge(prog, f, bi, t, c, when_none))
-            good = [v for v in verdicts if v[0] == "ok"]
-            bad = [v for v in verdicts if v[0] == "bad"]
-            ok = bool(good) and not bad
-            rep.inst(f"{f.key} no-difference decided by {good[0][1] if good else '?'}",
-                     {"candidates": [v[1] for v in verdicts], "paths": len(rows)}, cfg, ok=ok)
+            # every path returning None passed a recognised exact test that answered `equal`; every path returning a
+            # diff passed one that answered `different`; no recognised-but-inexact test may answer `equal`
+            memo = {}
+
+            def verdict(key, when_none):
+                if (key, when_none) not in memo:
+                    bi = int(key.split(":")[1])
+                    t = f.blocks[bi]["term"]
+                    memo[(key, when_none)] = _judge(prog, f, bi, t, callee(t), when_none)
+                return memo[(key, when_none)]
+            problems = []
+            used = set()
+            for kind, ds in (("None", nones), ("Some", somes)):
+                for d in ds:
+                    vs = [verdict(k, v if kind == "None" else (not v)) for k, v in d.items()]
+                    good = [v for v in vs if v[0] == "ok"]
+                    bad = [v for v in vs if v[0] == "bad"]
+                    if good and not bad:
+                        used.add(good[0][1])
+                        continue
+                    if bad:
+                        problems.append((bad[0][1], bad[0][2]))
+                    else:
+                        by = sorted({callee(f.blocks[int(k.split(":")[1])]["term"]).split("::")[-1] for k in d}) or ["nothing"]
+                        problems.append(("unrecognised", f"a path returning {'no diff' if kind == 'None' else 'a diff'} is decided by "
+                                                         f"{by}, none of which is a recognised exact test of the two texts"))
+            ok = not problems
+            rep.inst(f"{f.key} no-difference decided by {sorted(used) or '?'}", {"paths": len(rows)}, cfg, ok=ok)
             if not ok:
-                why = bad[0][2] if bad else "no recognised exact test separates the paths returning None from those returning a diff"
-                what = bad[0][1] if bad else "unrecognised"
+                what, why = sorted(set(problems))[0]
                 rep.violation(f"{f.key} no-difference-test-not-exact {what}",
                               f"{f.path} answers `no difference`: {why}; `--check` then stays silent for a file that is "
                               f"not formatted, or prints a diff for one that is", f.loc(), cfg)
@@ -303,6 +305,12 @@ def _judge(prog, f, bi, t, c, when_none):
             return ("bad", f"{short}-of-other-values", "the compared values are not the two texts")
         want = short == "eq"
         return ("ok", f"str-{short}", "") if when_none == want else ("bad", f"str-{short}-polarity", "the polarity of the string comparison is inverted")
+    if re.search(r"Iterator::(eq|ne|eq_by|cmp|partial_cmp)$", c):
+        chs = [_chain(f, a) for a in t["args"][:2]]
+        names = sorted({str(x[0]).split("::")[-1] for ch in chs for x in ch if x[0] not in ("arg", "?")})
+        return ("bad", f"{short}-over-{'+'.join(names) or 'iterators'}",
+                f"the texts are compared piecewise through {names} (e.g. `lines()` drops the line terminators and a missing "
+                f"final newline), not as whole strings")
     if re.search(r"::is_empty$", c) or re.search(r"Option::<.*>::is_(none|some)$|Option::<T>::is_(none|some)$", c):
         ch = _chain(f, t["args"][0])
         names = [x[0] for x in ch]
@@ -382,6 +390,34 @@ def _lin(f, o, trail, depth=0):
 def _lin_local(f, l, trail, depth):
     ds = [(b, s) for b, si_, s in f.stmts() if s["k"] == "assign" and s["dst"]["l"] == l and not s["dst"].get("p")
           and (trail is None or b in trail)]
+    cs = [(b, t) for b, t in f.calls() if t["dst"]["l"] == l and not t["dst"].get("p") and (trail is None or b in trail)]
+    if not ds and len(cs) == 1:
+        # a small arithmetic helper (`fn last_line_index(index, len) -> usize`): its result as a linear form of its
+        # parameters, with the arguments substituted
+        t = cs[0][1]
+        h = f.prog.fn(f.crate, callee(t))
+        if h is None or h.kind == "Closure" or depth > 10:
+            return None
+        if 1 <= l <= 0:
+            return None
+        body = _lin(h, {"cp": {"l": 0}}, None, depth + 1)
+        if body is None:
+            return None
+        out = {}
+        for k, v in body.items():
+            if k == 1:
+                out[1] = out.get(1, 0) + v
+            elif isinstance(k, tuple) and k[0] == "param":
+                a = _lin(f, t["args"][k[1] - 1], trail, depth + 1)
+                if a is None:
+                    return None
+                for k2, v2 in a.items():
+                    out[k2] = out.get(k2, 0) + v * v2
+            else:
+                return None
+        return {k: v for k, v in out.items() if v != 0}
+    if not ds and not cs and 1 <= l <= f.argc:
+        return {("param", l): 1}
     if len(ds) != 1:
         return None
     rv = ds[0][1]["rv"]
@@ -465,7 +501,12 @@ def _text_form(prog, f, o, op_local, trail):
 
 
 def _closure_fn(prog, f, o):
+    if is_const(o) and o.get("fn"):
+        # a named function used as the predicate / mapper
+        return prog.fn("stylua", o.get("rfn") or o["fn"]) or prog.fn("stylua", o["fn"])
     for r in provenance(f, o, through=None, into_aggs=False):
+        if r[0] == "const" and r[1].startswith("fn:"):
+            return prog.fn("stylua", r[1][3:])
         if r[0] == "agg" and r[1].startswith("closure "):
             cl = r[1][len("closure "):]
             return prog.fn("stylua", cl) or prog.fn("stylua", cl.split("stylua::", 1)[-1])
@@ -488,12 +529,48 @@ def _tag_closure(prog, f, o):
         return None
     if not any(re.search(r"Change<.*>::tag$|Change::<T>::tag$", callee(t)) for b, t in g.calls()):
         return None
+    TAGS = {"Equal", "Delete", "Insert"}
+    # `change.tag() == tag` with a captured (or constant) tag: the instance's captured operand decides
+    for b, t in g.calls():
+        m = re.search(r"PartialEq.*::(eq|ne)$", callee(t))
+        if not m or t["dst"]["l"] != 0 or len(t["args"]) != 2:
+            continue
+        sides = []
+        for a in t["args"]:
+            rs = provenance(g, a, through=None)
+            if any(r[0] == "call" and re.search(r"Change<.*>::tag$|Change::<T>::tag$", r[1]) for r in rs):
+                sides.append(("tag",))
+            else:
+                v = None
+                for r in rs:
+                    if r[0] == "agg" and "ChangeTag::" in r[1]:
+                        v = r[1].split("::")[-1]
+                    if r[0] == "upvar":
+                        cops = None
+                        for r2 in provenance(f, o, through=None, into_aggs=False):
+                            if r2[0] == "agg" and r2[1].startswith("closure "):
+                                for s_ in f.blocks[r2[2]]["st"]:
+                                    if s_["k"] == "assign" and s_["rv"]["k"] == "agg" and "closure" in s_["rv"] and \
+                                            ("closure " + s_["rv"]["closure"]) == r2[1]:
+                                        cops = s_["rv"]["ops"]
+                        try:
+                            idx = int(r[1])
+                        except (TypeError, ValueError):
+                            idx = None
+                        if cops is not None and idx is not None and idx < len(cops):
+                            for r3 in provenance(f, cops[idx], through=None):
+                                if r3[0] == "agg" and "ChangeTag::" in r3[1]:
+                                    v = r3[1].split("::")[-1]
+                sides.append(("val", v))
+        vals = [x[1] for x in sides if x[0] == "val"]
+        if ("tag",) in sides and len(vals) == 1 and vals[0] in TAGS:
+            return frozenset({vals[0]}) if m.group(1) == "eq" else frozenset(TAGS - {vals[0]})
+        return None
     try:
         res = Enumerator(g, summaries=False, max_paths=2000).run()
     except TooManyPaths:
         return None
     keep = set()
-    TAGS = {"Equal", "Delete", "Insert"}
     for st in res:
         v0 = st.vals.get(0)
         if not (v0 and v0[0] == "const" and isinstance(v0[1], bool)):
@@ -524,6 +601,9 @@ def rule_json(ctx, prop):
         f = prog.fn("stylua", "output_diff::output_diff_json")
         if not rep.anchor(f is not None, "stylua::output_diff::output_diff_json", cfg):
             continue
+        # a local closure called directly (`let collect = |op, tag| ..; collect(&op, Delete)`) is analysed in place
+        from inline import inlined
+        f = inlined(prog, f, lambda c_, h_, t_: h_.kind == "Closure" and h_.path.startswith(c_.path + "::{closure"), allow_closures=True)
         adt = prog.adt("output_diff::DiffMismatch", "stylua")
         fields = [x["name"] if isinstance(x, dict) else x for x in (adt or {}).get("variants", [{}])[0].get("fields", [])] if adt else []
         want_fields = ["original_start_line", "original_end_line", "expected_start_line", "expected_end_line", "original", "expected"]
